@@ -122,3 +122,16 @@ Proof. exact gen_predicates. Qed.
 Theorem C16_source_none_of_is_any_of : gen_pred_none_of = gen_pred_any_of.
 Proof. exact gen_none_of_is_any_of_in_the_source. Qed.
 Print Assumptions C16_source_predicates.
+
+(** * Floating products: with a rounding after every multiplication that satisfies the standard model, for every lane
+    count W and size n the product computed as the library computes it is within ((1+u)^(n+W) - 1) * |prod x_i| of the
+    exact product (relative errors of the n + W multiplications add) *)
+From FastorV Require Import Proofs.ProdRounding.
+Theorem C16_product_rounding :
+  forall (rnd : R -> R) (u : R),
+    (0 <= u)%R -> (forall x, (Rabs (rnd x - x) <= u * Rabs x)%R) ->
+  forall (f : nat -> R) W n, 0 < W ->
+    (Rabs (reduce (fun a b => rnd (a * b)) 1 W n f - fold_left Rmult (map f (seq 0 n)) 1)
+     <= E u (n + W) * Rabs (fold_left Rmult (map f (seq 0 n)) 1))%R.
+Proof. exact product_float_bound. Qed.
+Print Assumptions C16_product_rounding.
